@@ -474,6 +474,12 @@ def templates(depth, tier):
         add(lambda: f"not {leaf()} {c} {leaf()}")
     for a, b in itertools.product(CMP, repeat=2):
         add(lambda: f"{leaf()} {a} {leaf()} {b} {leaf()}")
+    # chains whose later operands are compound: Python does not evaluate them once an earlier link is false
+    for a, b in itertools.product(CMP, repeat=2):
+        add(lambda: f"{leaf()} {a} {leaf()} {b} {leaf()} / {leaf()}")
+        add(lambda: f"{leaf()} {a} {leaf()} * {leaf()} {b} -{leaf()}")
+    for a, b, c in itertools.product(CMP[:3], repeat=3):
+        add(lambda: f"{leaf()} {a} {leaf()} {b} {leaf()} + {leaf()} {c} {leaf()} % {leaf()}")
     for a, b, c in itertools.product(CMP[:4] if tier == "quick" else CMP, repeat=3):
         add(lambda: f"{leaf()} {a} {leaf()} {b} {leaf()} {c} {leaf()}")
     for k in (2, 3, 4):
